@@ -135,6 +135,8 @@ def tr2xyt(T, unit='rad'):
 
     """
     angle = math.atan2(T[1, 0], T[0, 0])
+    if unit == 'deg':
+        angle = angle * 180.0 / math.pi
     return np.r_[T[0,2], T[1,2], angle]
 
 # ---------------------------------------------------------------------------------------#
